@@ -46,6 +46,7 @@ func main() {
 	replay := flag.String("replay", "", "replay file: re-run only that obligation")
 	list := flag.Bool("list", false, "list functions and exit")
 	dump := flag.String("dump", "", "dump SSA of a function with labels and guard facts, then exit")
+	benign := flag.String("benign", "", "benign variant id: analyse the tree with that behaviour-preserving edit overlaid and exit 0 iff the property's rules stay silent")
 	variant := flag.String("variant", "", "liveness bank entry id: analyse the tree with that single edit overlaid and exit 0 iff the expected rule fires")
 	flag.Parse()
 	if t := os.Getenv("VERIF_TIER"); t != "" && *tier == "quick" && !flagSet("tier") {
@@ -79,6 +80,9 @@ func main() {
 	}
 	if *variant != "" {
 		os.Exit(runVariant(dir, *variant))
+	}
+	if *benign != "" {
+		os.Exit(runBenignVariant(dir, *benign, *prop))
 	}
 	start := time.Now()
 	configs := []struct{ tags, arch string }{{"", ""}}
